@@ -1,6 +1,7 @@
 package main
 
 import (
+	"regexp"
 	"fmt"
 	"go/token"
 	"go/types"
@@ -22,6 +23,7 @@ type Program struct {
 	harness  map[string]*ssa.Function // H_* entry points by name
 	loadSecs float64
 	dropped  []string
+	stale    map[string]string // harness entry point -> dropped harness file that defined it
 }
 
 var goatPkgs = []string{
@@ -72,6 +74,8 @@ func harnessOverlay(repo, harnessDir string) (map[string][]byte, error) {
 	return ov, nil
 }
 
+var harnessFuncRe = regexp.MustCompile(`(?m)^func (H_\w+)\(`)
+
 func loadProgram(repo, harnessDir string) (*Program, error) {
 	ov, err := harnessOverlay(repo, harnessDir)
 	if err != nil {
@@ -79,6 +83,7 @@ func loadProgram(repo, harnessDir string) (*Program, error) {
 	}
 	var initial []*packages.Package
 	var dropped []string
+	stale := map[string]string{}
 	for attempt := 0; ; attempt++ {
 		cfg := &packages.Config{
 			Mode:       packages.LoadAllSyntax,
@@ -117,6 +122,9 @@ func loadProgram(repo, harnessDir string) (*Program, error) {
 			return nil, fmt.Errorf("cannot build: %d type/load errors in goat packages", nerr)
 		}
 		for f := range bad {
+			for _, m := range harnessFuncRe.FindAllSubmatch(ov[f], -1) {
+				stale[string(m[1])] = filepath.Base(f)
+			}
 			delete(ov, f)
 			dropped = append(dropped, filepath.Base(f))
 		}
@@ -124,7 +132,7 @@ func loadProgram(repo, harnessDir string) (*Program, error) {
 	}
 	prog, _ := ssautil.AllPackages(initial, ssa.InstantiateGenerics)
 	prog.Build()
-	p := &Program{prog: prog, pkgs: map[string]*ssa.Package{}, fset: prog.Fset, repo: repo, harness: map[string]*ssa.Function{}, dropped: dropped}
+	p := &Program{prog: prog, pkgs: map[string]*ssa.Package{}, fset: prog.Fset, repo: repo, harness: map[string]*ssa.Function{}, dropped: dropped, stale: stale}
 	for _, sp := range prog.AllPackages() {
 		p.pkgs[sp.Pkg.Path()] = sp
 	}
